@@ -12,10 +12,22 @@ pub struct Finding {
 	pub what: String,
 	/// rests on a real-time upper bound: must be confirmed by repetition before it is a violation
 	pub needs_confirmation: bool,
+	/// largest heartbeat gap (ms) under which a run counts as healthy for this finding
+	pub health_ms: u64,
 }
 
 fn f(sig: &str, what: String, confirm: bool) -> Finding {
-	Finding { sig: sig.to_string(), what, needs_confirmation: confirm }
+	// tight real-time rules tolerate only a small scheduling gap, cap-based ones a large one
+	let health_ms = if sig.contains("window-split") {
+		5
+	} else if sig.contains("urgent-debounced") {
+		20
+	} else if sig.contains("urgent-late") {
+		100
+	} else {
+		500
+	};
+	Finding { sig: sig.to_string(), what, needs_confirmation: confirm, health_ms }
 }
 
 pub fn healthy(h: &History, limit_ms: u64) -> bool {
